@@ -87,13 +87,41 @@ func c13Exits(b *ssa.BasicBlock) bool {
 // c13ExitGuard: a branch on the matched condition dominates the instruction and its rejecting outcome
 // runs into cleanExit/os.Exit, so any execution that reaches the instruction took the other outcome
 // the last time it passed the test.
-func c13ExitGuard(ins ssa.Instruction, match func(cond string) (matched, exitOn bool)) bool {
+func c13ExitGuard(ins ssa.Instruction, matchS func(cond string) (matched, exitOn bool)) bool {
+	return c13ExitGuardIf(ins, func(iff *ssa.If) (bool, bool) { return matchS(an.Expr(iff.Cond)) })
+}
+
+// c13LinDiff: x - y as a linear form (see an.LinForm).
+func c13LinDiff(x, y ssa.Value) map[string]int64 {
+	d := an.LinForm(x)
+	for a, k := range an.LinForm(y) {
+		d[a] -= k
+		if d[a] == 0 {
+			delete(d, a)
+		}
+	}
+	return d
+}
+
+func c13LinEq(a, b map[string]int64) bool {
+	if len(a) != len(b) {
+		return false
+	}
+	for k, v := range a {
+		if b[k] != v {
+			return false
+		}
+	}
+	return true
+}
+
+func c13ExitGuardIf(ins ssa.Instruction, match func(iff *ssa.If) (matched, exitOn bool)) bool {
 	for d := ins.Block(); d != nil; d = d.Idom() {
 		iff, ok := d.Instrs[len(d.Instrs)-1].(*ssa.If)
 		if !ok || d == ins.Block() {
 			continue
 		}
-		m, exitOn := match(an.Expr(iff.Cond))
+		m, exitOn := match(iff)
 		if !m {
 			continue
 		}
@@ -288,12 +316,8 @@ func c13Amounts(r *core.Run, p *core.Program) {
 			if r.Check(a[1] == "wallet.changeBtc", rule, "change/amount", p.Pos(c.Pos()), "the change output pays changeBtc", "the change output pays "+a[1]+" instead of changeBtc") {
 				chg++
 			}
-			pos := false
-			for _, dc := range an.DomConds(c.Block()) {
-				if dc.Cond == "(wallet.changeBtc > 0)" && dc.True {
-					pos = true
-				}
-			}
+			cs := an.DomConds(c.Block())
+			pos := an.HasCond(cs, "(wallet.changeBtc > 0)", true) || an.HasCond(cs, "(wallet.changeBtc != 0)", true) || an.HasCond(cs, "(wallet.changeBtc >= 1)", true)
 			r.Check(pos, rule, "change/only-when-positive", p.Pos(c.Pos()), "a change output exists only for a positive change", "the change output is not conditional on changeBtc > 0")
 		default:
 			r.Fail(rule, "outputs/unknown", p.Pos(c.Pos()), "an output is built for "+a[0]+" / "+a[1]+", which is neither a requested payment nor the change")
@@ -387,7 +411,11 @@ func c13Amounts(r *core.Run, p *core.Program) {
 		c13Stores(f, func(st *ssa.Store, addr string) {
 			for _, g := range []string{"spendBtc", "feeBtc", "changeBtc", "sendTo", "curFee"} {
 				if addr == "&wallet."+g || strings.HasPrefix(addr, "&wallet."+g+"[") {
-					writers[g] = append(writers[g], f.Name()+": "+an.Expr(st.Val))
+					if g == "changeBtc" {
+						writers[g] = append(writers[g], f.Name()+": "+an.LinString(an.LinForm(st.Val)))
+					} else {
+						writers[g] = append(writers[g], f.Name()+": "+an.Expr(st.Val))
+					}
 				}
 			}
 		})
@@ -399,7 +427,8 @@ func c13Amounts(r *core.Run, p *core.Program) {
 	if t := c13Total(ms); t != nil {
 		totE = an.Expr(t)
 	}
-	r.Check(strings.Join(writers["changeBtc"], " ; ") == "make_signed_tx: ("+totE+" - (wallet.spendBtc + wallet.feeBtc))", rule, "change/formula", p.Pos(ms.Pos()), "changeBtc = btcsofar - (spendBtc + feeBtc), assigned once", "changeBtc is written as: "+strings.Join(writers["changeBtc"], " ; "))
+	wantChange := "make_signed_tx: " + an.LinString(map[string]int64{totE: 1, "wallet.spendBtc": -1, "wallet.feeBtc": -1})
+	r.Check(strings.Join(writers["changeBtc"], " ; ") == wantChange, rule, "change/formula", p.Pos(ms.Pos()), "changeBtc = btcsofar - (spendBtc + feeBtc), assigned once", "changeBtc is written as: "+strings.Join(writers["changeBtc"], " ; "))
 	r.Check(strings.Join(writers["feeBtc"], " ; ") == "send_request: wallet.curFee", rule, "fee/source", "-", "feeBtc = curFee, assigned once in send_request", "feeBtc is written as: "+strings.Join(writers["feeBtc"], " ; "))
 	// sendTo / spendBtc pairs in parse_spend and parse_batch
 	for _, fnn := range []string{"parse_spend", "parse_batch"} {
@@ -504,11 +533,16 @@ func c13Amounts(r *core.Run, p *core.Program) {
 					}
 				}
 				r.Check(an.HasCond(cs, "*wallet.subfee", true) && first, rule, "requests/"+fnn+"/subfee-when", p.Pos(bo.Pos()), "only under -f and only for the first destination", "the fee subtraction is not conditional on -f and the first destination")
-				g := c13ExitGuard(bo, func(c string) (bool, bool) {
-					switch c {
-					case "(" + x + " < " + fee + ")":
+				g := c13ExitGuardIf(bo, func(iff *ssa.If) (bool, bool) {
+					cx, cy, rel, ok := an.CondCmp(iff.Cond)
+					if !ok {
+						return false, false
+					}
+					ex, ey := an.Expr(cx), an.Expr(cy)
+					switch {
+					case ex == x && ey == fee && rel == token.LSS, ex == fee && ey == x && rel == token.GTR:
 						return true, true
-					case "(" + x + " >= " + fee + ")":
+					case ex == x && ey == fee && rel == token.GEQ, ex == fee && ey == x && rel == token.LEQ:
 						return true, false
 					}
 					return false, false
@@ -595,11 +629,19 @@ func c13Guards(r *core.Run, p *core.Program) {
 	if t := c13Total(ms); t != nil {
 		totE = an.Expr(t)
 	}
-	isShort := func(c string) (bool, bool) {
-		switch c {
-		case "(" + totE + " < (wallet.spendBtc + wallet.feeBtc))":
+	// "the selected total is below spendBtc+feeBtc", however the comparison is written: total - need < 0
+	short := map[string]int64{totE: 1, "wallet.spendBtc": -1, "wallet.feeBtc": -1}
+	neg := map[string]int64{totE: -1, "wallet.spendBtc": 1, "wallet.feeBtc": 1}
+	isShort := func(iff *ssa.If) (bool, bool) {
+		x, y, rel, ok := an.CondCmp(iff.Cond)
+		if !ok {
+			return false, false
+		}
+		d := c13LinDiff(x, y)
+		switch {
+		case c13LinEq(d, short) && rel == token.LSS, c13LinEq(d, neg) && rel == token.GTR:
 			return true, true
-		case "(" + totE + " >= (wallet.spendBtc + wallet.feeBtc))":
+		case c13LinEq(d, short) && rel == token.GEQ, c13LinEq(d, neg) && rel == token.LEQ:
 			return true, false
 		}
 		return false, false
@@ -617,7 +659,7 @@ func c13Guards(r *core.Run, p *core.Program) {
 	}
 	bad := ""
 	for _, i := range pts {
-		if !c13ExitGuard(i, isShort) {
+		if !c13ExitGuardIf(i, isShort) {
 			bad = p.Pos(an.InstrPos(i))
 		}
 	}
@@ -1318,12 +1360,16 @@ func c13Der(r *core.Run, p *core.Program) {
 				if !ok {
 					continue
 				}
-				c := an.Expr(iff.Cond)
-				if c != "("+ie+"[0] >= 128)" && c != "("+ie+"[0] > 127)" {
+				// the edge on which "first byte >= 0x80" holds: append([]byte{0}, x...); the join phi merges
+				// padded and unpadded
+				padEdge := an.EdgeWhere(iff, func(x, y ssa.Value, rel token.Token) bool {
+					k, isC := an.ConstOf(y)
+					return isC && an.Expr(x) == ie+"[0]" && ((rel == token.GEQ && k.Int64() == 0x80) || (rel == token.GTR && k.Int64() == 0x7f))
+				})
+				if padEdge == nil {
 					continue
 				}
-				// true edge: append([]byte{0}, x...); the join phi merges padded and unpadded
-				for _, ins := range b.Succs[0].Instrs {
+				for _, ins := range padEdge.Instrs {
 					ac, ok := ins.(*ssa.Call)
 					if !ok || an.CallName(ac) != "builtin.append" {
 						continue
@@ -1371,6 +1417,9 @@ func c13Der(r *core.Run, p *core.Program) {
 				}
 				a := c.Call.Args[1]
 				e := an.Expr(a)
+				if cv, ok := a.(*ssa.Convert); ok && an.TypeName(cv.Type()) == "byte" {
+					e = "byte(" + an.LinString(an.LinForm(cv.X)) + ")"
+				}
 				for k, ph := range final {
 					nm := []string{"R", "S"}[k]
 					pe := an.Expr(ph)
@@ -1381,7 +1430,7 @@ func c13Der(r *core.Run, p *core.Program) {
 		}
 		got := strings.Join(seq, " ")
 		// the names R and S are substituted through the phi rendering "phi:rb@bN"
-		want1 := "48 byte(((4 + builtin.len(R)) + builtin.len(S))) 2 byte(builtin.len(R)) R 2 byte(builtin.len(S)) S"
+		want1 := "48 byte(builtin.len(R) + builtin.len(S) + 4) 2 byte(builtin.len(R)) R 2 byte(builtin.len(S)) S"
 		okL := strings.HasPrefix(got, want1)
 		rest := strings.TrimSpace(strings.TrimPrefix(got, want1))
 		okT := rest == "param#3" || rest == "param#4" || rest == "param#0.HashType" || rest == "byte(param#3)" || rest == "byte(param#4)" || rest == ""
